@@ -380,7 +380,7 @@ var assumptions = []string{
 }
 
 func TestPropHistories(t *testing.T) {
-	kit.Run(t, kit.Spec[Case]{ID: "C10", Name: "histories", Rule: rule, Gen: gen, Check: check, Quick: 700, Thorough: 20000, Assumptions: assumptions})
+	kit.Run(t, kit.Spec[Case]{ID: "C10", Name: "histories", Rule: rule, Gen: gen, Check: check, Quick: 700, Thorough: 15000, Assumptions: assumptions})
 }
 
 // ---------------------------------------------------------------------------
